@@ -16,7 +16,9 @@ Alphabet == << <<I("a")>>, <<I("b")>>, <<I("a"), I("b")>>, <<I("b"), I("a")>>, <
                <<HV("v")>>, <<I("a"), V("v")>>, <<Dots, I("b")>>, <<Und, I("a")>>, << >>,
                <<HV("v"), I("b")>>,
                \* a variadic axis with the NAME of a single axis: two different axes (two namespaces)
-               <<V("a")>>, <<V("a"), I("a")>>, <<I("b"), V("b")>> >>
+               <<V("a")>>, <<V("a"), I("a")>>, <<I("b"), V("b")>>,
+               \* a multi-axis specifier in the MIDDLE (prefix and suffix are matched from both ends)
+               <<I("a"), V("v"), I("b")>>, <<I("a"), Dots, I("a")>>, <<F(2), HV("v"), I("a")>> >>
 \* symbolic annotations (only used where the names they use are bound earlier)
 SymAlphabet == << <<SymT(<<"+", <<"n", "a">>, <<"i", 1>>>>)>>, <<SymT(<<"*", <<"n", "a">>, <<"n", "b">>>>)>>,
                   <<I("a"), SymT(<<"-", <<"n", "a">>, <<"i", 1>>>>)>>, <<SymT(<<"a", "n">>)>> >>
